@@ -22,6 +22,13 @@ SIGN-NONZERO      a sign vector that multiplies a factor must not be able to van
                   component is already 0) or when zeros are replaced first
                   (where(s == 0, 1, s)).
 
+LOST-REBIND       the in-place flavour of a transform returns the operand object itself: a
+                  component unpacked from it (`weights, factors = cp_tensor`) that is re-bound
+                  (`weights = weights * ...`) on a path to `return cp_tensor` is lost -- only
+                  element stores / in-place operators on the unpacked containers, or stores
+                  back into the operand, reach the returned object (branch-consistent paths:
+                  `if copy:` ... `if copy: return CPTensor(...) else: return cp_tensor`).
+
 Not decided: equality of the represented tensors (only their degree / sign parity), unit
 norm itself, the permutation alignment of cp_permute_factors, rank padding, CP -> PARAFAC2
 conversion, the SVD compression round trip.
@@ -87,6 +94,8 @@ def run(ctx: Ctx):
     )
     ctx.guarded(degree_conserved, ctx)
     ctx.guarded(sign_nonzero, ctx)
+    res.rule("LOST-REBIND", "a transform that can return its operand itself (in-place flavour): on every branch-consistent path from unpacking the operand's components to `return <operand>`, no component name is re-bound without being stored back into the operand -- a re-bound local is a new object the returned operand never sees", floor=1)
+    ctx.guarded(lost_rebind, ctx)
 
 
 def degree_conserved(ctx: Ctx):
@@ -193,3 +202,71 @@ def sign_nonzero(ctx: Ctx):
                     ctx.finding("SIGN-NONZERO", f, d, f"`{name} = {src(d)[:80]}` is 0 wherever `{src(g)[:60]}` is 0, and it multiplies {', '.join('`' + src(m)[:40] + '`' for m in mult[:3])}: a component whose summary is exactly zero (e.g. a zero-mean column) is annihilated although it is not zero, so the represented tensor changes. Replace zeros of the sign by 1 first", construct=f"{f.name}: {name} = sign({src(g)[:60]}) unguarded")
     if n == 0:
         raise AnalysisError("SIGN-NONZERO: no sign vector found in cp_flip_sign")
+
+
+# ---------------------------------------------------------------------------------
+LOST_REBIND_MODULES = ["tensorly.cp_tensor", "tensorly.tucker_tensor", "tensorly.tt_tensor", "tensorly.tr_tensor", "tensorly.tt_matrix", "tensorly.parafac2_tensor"]
+
+
+class _RebindRule:
+    def __init__(self, f, operand):
+        self.f, self.operand = f, operand
+
+    def init_state(self):
+        return (frozenset(), frozenset())  # component names unpacked from the operand, those re-bound since
+
+    def transfer(self, node, st, ex):
+        comps, rebound = st
+        a = node.ast
+        if a is None:
+            return st
+        if node.kind == "return" and isinstance(a, ast.Return) and is_name(a.value, self.operand) and rebound:
+            for nm in sorted(rebound):
+                ex.report(("LOST-REBIND", nm), f"`{nm}` was unpacked from `{self.operand}` and re-bound to a new object, but this path returns `{self.operand}` itself: the new `{nm}` never reaches the returned object (the transform silently drops that update in its in-place flavour)", node)
+            return st
+        if node.kind != "stmt":
+            return st
+        if isinstance(a, ast.Assign):
+            # unpacking: a, b = operand
+            if is_name(a.value, self.operand) and len(a.targets) == 1 and isinstance(a.targets[0], (ast.Tuple, ast.List)):
+                names = frozenset(e.id for e in a.targets[0].elts if isinstance(e, ast.Name))
+                return (comps | names, rebound - names)
+            for t in a.targets:
+                # stored back into the operand: operand.attr = name / operand[i] = name
+                if isinstance(t, (ast.Attribute, ast.Subscript)) and is_name(t.value, self.operand) and isinstance(a.value, ast.Name) and a.value.id in rebound:
+                    rebound = rebound - {a.value.id}
+                for x in ([t] if isinstance(t, ast.Name) else (t.elts if isinstance(t, (ast.Tuple, ast.List)) else [])):
+                    if isinstance(x, ast.Name) and x.id in comps:
+                        rebound = rebound | {x.id}
+                if is_name(t, self.operand):
+                    return (frozenset(), frozenset())  # the operand itself is re-bound: a different object is returned
+        elif isinstance(a, ast.AugAssign) and isinstance(a.target, ast.Name) and a.target.id in comps:
+            # `w *= x` on an array is in place, on a Python number it re-binds: arrays here (components of a factorised tensor)
+            pass
+        return (comps, rebound)
+
+
+def lost_rebind(ctx: Ctx):
+    from ..cfg import build_cfg
+    from ..explore import Explorer
+
+    repo, res = ctx.repo, ctx.res
+    n = 0
+    for modname in LOST_REBIND_MODULES:
+        mod = repo.module(modname)
+        for f in [g for g in repo.functions.values() if g.module is mod]:
+            if not f.call_params:
+                continue
+            rets = [r for r in own_scope_nodes(f.node) if isinstance(r, ast.Return) and isinstance(r.value, ast.Name) and r.value.id in f.call_params]
+            for operand in sorted({r.value.id for r in rets}):
+                unpacks = [s_ for s_ in own_scope_nodes(f.node) if isinstance(s_, ast.Assign) and is_name(s_.value, operand) and isinstance(s_.targets[0], (ast.Tuple, ast.List))]
+                if not unpacks:
+                    continue
+                n += 1
+                g = build_cfg(f.node, f.qname)
+                ex = Explorer(g, _RebindRule(f, operand)).run()
+                res.instance("LOST-REBIND", f"{f.qname}: return {operand}", sample={"states": ex.states, "paths": ex.paths_to_exit, "violations": len(ex.violations)})
+                for v in ex.violations.values():
+                    ctx.finding("LOST-REBIND", f, v.node.ast if v.node is not None else f.node, v.message, construct=f"{f.name}: `{v.key[1]}` re-bound before return {operand}", path=v.path)
+    if n == 0:
+        raise AnalysisError("LOST-REBIND: no transform returns its operand any more; the rule's anchors vanished")
